@@ -9,6 +9,9 @@ import Mathlib.Tactic.Ring
 import Mathlib.Tactic.FieldSimp
 import Mathlib.Tactic.Positivity
 import Mathlib.Tactic.SplitIfs
+import Mathlib.Data.List.Basic
+import Mathlib.Data.List.Perm.Basic
+import Mathlib.Data.List.Nodup
 
 namespace HitenModel.C19
 
@@ -265,6 +268,41 @@ theorem kkt_min {A B C D E : K} (hQ : ∀ x y : K, 0 ≤ A * x * x - (B + B) * x
         rw [this]; simp
   nlinarith
 
+theorem gram_den_eq (ux uy vx vy : K) :
+    (ux * ux + uy * uy) * (vx * vx + vy * vy) - (ux * vx + uy * vy) * (ux * vx + uy * vy)
+      = (ux * vy - uy * vx) * (ux * vy - uy * vx) := by ring
+
+/-- Cauchy–Schwarz: `den = A·C − B² ≥ 0` -/
+theorem gram_den_nonneg (ux uy vx vy : K) :
+    0 ≤ (ux * ux + uy * uy) * (vx * vx + vy * vy) - (ux * vx + uy * vy) * (ux * vx + uy * vy) := by
+  rw [gram_den_eq]; exact mul_self_nonneg _
+
+theorem gram_A0 (ux uy vx vy wx wy : K) :
+    ux * ux + uy * uy = 0 → ux * vx + uy * vy = 0 ∧ ux * wx + uy * wy = 0 := by
+  intro h
+  obtain ⟨h1, h2⟩ := (mul_self_add_mul_self_eq_zero).mp h
+  subst h1 h2
+  constructor <;> ring
+
+theorem gram_C0 (ux uy vx vy wx wy : K) :
+    vx * vx + vy * vy = 0 → ux * vx + uy * vy = 0 ∧ vx * wx + vy * wy = 0 := by
+  intro h
+  obtain ⟨h1, h2⟩ := (mul_self_add_mul_self_eq_zero).mp h
+  subst h1 h2
+  constructor <;> ring
+
+/-- parallel segments (`den = 0`): `C·D = B·E` (Binet–Cauchy) -/
+theorem gram_par (ux uy vx vy wx wy : K) :
+    (ux * ux + uy * uy) * (vx * vx + vy * vy) - (ux * vx + uy * vy) * (ux * vx + uy * vy) = 0 →
+      (vx * vx + vy * vy) * (ux * wx + uy * wy) = (ux * vx + uy * vy) * (vx * wx + vy * wy) := by
+  intro h
+  rw [gram_den_eq] at h
+  have hc : ux * vy - uy * vx = 0 := mul_self_eq_zero.mp h
+  have : (vx * vx + vy * vy) * (ux * wx + uy * wy) - (ux * vx + uy * vy) * (vx * wx + vy * wy)
+      = (ux * vy - uy * vx) * (vy * wx - vx * wy) := by ring
+  rw [hc, zero_mul] at this
+  exact sub_eq_zero.mp this
+
 /-- point of the segment `a0 → a1` at parameter `s` -/
 def segPt (a0 a1 : Pt K) (s : K) : Pt K := (a0.1 + s * (a1.1 - a0.1), a0.2 + s * (a1.2 - a0.2))
 
@@ -331,6 +369,118 @@ theorem closestCore_spec (a0x a0y a1x a1y b0x b0y b1x b1y : K) :
   simp only [d2]
   nlinarith [hm]
 
+/-- the `(s,t)` returned by `closestCore` is a KKT point of the squared-distance function of the two segments -/
+theorem closestCore_kkt (a0x a0y a1x a1y b0x b0y b1x b1y : K) :
+    KKT ((a1x - a0x) * (a1x - a0x) + (a1y - a0y) * (a1y - a0y))
+        ((a1x - a0x) * (b1x - b0x) + (a1y - a0y) * (b1y - b0y))
+        ((b1x - b0x) * (b1x - b0x) + (b1y - b0y) * (b1y - b0y))
+        ((a1x - a0x) * (a0x - b0x) + (a1y - a0y) * (a0y - b0y))
+        ((b1x - b0x) * (a0x - b0x) + (b1y - b0y) * (a0y - b0y))
+        ((closestCore a0x a0y a1x a1y b0x b0y b1x b1y).1, (closestCore a0x a0y a1x a1y b0x b0y b1x b1y).2.1) := by
+  simp only [closestCore]
+  generalize a1x - a0x = ux
+  generalize a1y - a0y = uy
+  generalize b1x - b0x = vx
+  generalize b1y - b0y = vy
+  generalize a0x - b0x = wx
+  generalize a0y - b0y = wy
+  exact closestST_kkt (add_nonneg (mul_self_nonneg _) (mul_self_nonneg _)) (add_nonneg (mul_self_nonneg _) (mul_self_nonneg _))
+    (gram_den_nonneg ux uy vx vy) (gram_A0 ux uy vx vy wx wy) (gram_C0 ux uy vx vy wx wy) (gram_par ux uy vx vy wx wy)
+
 end closest
+
+/-! ### results: sorting, thresholds -/
+section results
+variable {K : Type} [Field K] [LinearOrder K] [IsStrictOrderedRing K]
+
+theorem insertConn_perm (x : Conn K) (l : List (Conn K)) : (insertConn x l).Perm (x :: l) := by
+  induction l with
+  | nil => exact List.Perm.refl _
+  | cons y ys ih =>
+    unfold insertConn
+    split_ifs
+    · exact List.Perm.refl _
+    · exact (List.Perm.cons y ih).trans (List.Perm.swap x y ys)
+
+theorem foldl_insertConn_perm (l acc : List (Conn K)) :
+    (l.foldl (fun acc x => insertConn x acc) acc).Perm (acc ++ l) := by
+  induction l generalizing acc with
+  | nil => simp
+  | cons x xs ih =>
+    simp only [List.foldl_cons]
+    refine (ih (insertConn x acc)).trans ?_
+    refine ((insertConn_perm x acc).append_right xs).trans ?_
+    simp only [List.cons_append]
+    exact (List.perm_middle (l₁ := acc) (a := x) (l₂ := xs)).symm
+
+theorem sortConns_perm (l : List (Conn K)) : (sortConns l).Perm l := by
+  have := foldl_insertConn_perm l []
+  simpa [sortConns] using this
+
+theorem insertConn_sorted (x : Conn K) (l : List (Conn K)) (h : l.Pairwise (fun a b => a.dv2 ≤ b.dv2)) :
+    (insertConn x l).Pairwise (fun a b => a.dv2 ≤ b.dv2) := by
+  induction l with
+  | nil => simp [insertConn]
+  | cons y ys ih =>
+    rw [List.pairwise_cons] at h
+    unfold insertConn
+    split_ifs with hxy
+    · refine List.pairwise_cons.mpr ⟨?_, List.pairwise_cons.mpr h⟩
+      intro z hz
+      rcases List.mem_cons.mp hz with rfl | hz
+      · exact hxy.le
+      · exact hxy.le.trans (h.1 z hz)
+    · refine List.pairwise_cons.mpr ⟨?_, ih h.2⟩
+      intro z hz
+      have hz' := (insertConn_perm x ys).mem_iff.mp hz
+      rcases List.mem_cons.mp hz' with rfl | hz'
+      · exact not_lt.mp hxy
+      · exact h.1 z hz'
+
+theorem foldl_insertConn_sorted (l acc : List (Conn K)) (h : acc.Pairwise (fun a b => a.dv2 ≤ b.dv2)) :
+    (l.foldl (fun acc x => insertConn x acc) acc).Pairwise (fun a b => a.dv2 ≤ b.dv2) := by
+  induction l generalizing acc with
+  | nil => simpa using h
+  | cons x xs ih => exact ih _ (insertConn_sorted x acc h)
+
+theorem sortConns_sorted (l : List (Conn K)) : (sortConns l).Pairwise (fun a b => a.dv2 ≤ b.dv2) :=
+  foldl_insertConn_sorted l [] List.Pairwise.nil
+
+/-- the code's `0.5 * x` -/
+theorem half_mul (x : K) : (half : K) * x = x / 2 := by
+  unfold half
+  rw [one_add_one_eq_two]; ring
+
+theorem leTol_iff (x tol : K) : leTol x tol = true ↔ (0 ≤ tol ∧ x ≤ tol * tol) := by
+  simp [leTol]
+
+/-- what `mkConn` guarantees about a connection it reports -/
+theorem mkConn_some {Xu Xs : List (List K)} {pu : List (Pt K)} {tu ts : Option (List Nat)} {dvTol balTol : K}
+    {ij : Nat × Nat} {r : Refined K} {c : Conn K} (h : mkConn Xu Xs pu tu ts dvTol balTol ij r = some c) :
+    c.iu = ij.1 ∧ c.is = ij.2 ∧ c.tu = trajAt tu ij.1 ∧ c.ts = trajAt ts ij.2 ∧
+    c.dv2 = sqDiff (vel c.stateU) (vel c.stateS) ∧ leTol c.dv2 dvTol = true ∧ c.ballistic = leTol c.dv2 balTol ∧
+    ((r.valid = true ∧ r.u0 ≠ r.u1 ∧ r.s0 ≠ r.s1 ∧ c.seg = some (r.u1, r.s1, r.s, r.t) ∧ c.point = r.point ∧
+        c.stateU = lerp r.s (stAt Xu r.u0) (stAt Xu r.u1) ∧ c.stateS = lerp r.t (stAt Xs r.s0) (stAt Xs r.s1)) ∨
+     (¬ (r.valid = true ∧ r.u0 ≠ r.u1 ∧ r.s0 ≠ r.s1) ∧ c.seg = none ∧ c.point = ptAt pu ij.1 ∧
+        c.stateU = stAt Xu ij.1 ∧ c.stateS = stAt Xs ij.2)) := by
+  simp only [mkConn] at h
+  split_ifs at h with h1 h2 h3
+  · obtain rfl := Option.some.inj h
+    exact ⟨rfl, rfl, rfl, rfl, rfl, h2, rfl, Or.inl ⟨h1.1, h1.2.1, h1.2.2, rfl, rfl, rfl, rfl⟩⟩
+  · obtain rfl := Option.some.inj h
+    exact ⟨rfl, rfl, rfl, rfl, rfl, h3, rfl, Or.inr ⟨h1, rfl, rfl, rfl, rfl⟩⟩
+
+theorem mem_run {closest : ClosestFn K} {maxLen : K} {inp : Input K} {c : Conn K} (h : c ∈ run closest maxLen inp) :
+    ∃ ij ∈ mutualPairs inp.pu inp.ps (pairsArr inp),
+      mkConn inp.Xu inp.Xs inp.pu inp.tu inp.ts inp.dvTol inp.balTol ij
+        (refineOne closest maxLen inp.pu inp.ps (nnAll inp.pu) (nnAll inp.ps) ij) = some c := by
+  unfold run at h
+  split_ifs at h
+  · simp at h
+  · have := (sortConns_perm _).mem_iff.mp h
+    unfold unsorted at this
+    simpa [List.mem_filterMap] using this
+
+end results
 
 end HitenModel.C19
